@@ -52,7 +52,7 @@ def run(ctx):
     rows.append({'a': 0, 'c': 0, 'n': None, 'm': None, 'b': True, 'nb': None, 's': 'a', 't': '', 'ns': None})
     rows.append({'a': 1, 'c': -1, 'n': 0, 'm': 0, 'b': False, 'nb': False, 's': 'ab', 't': 'a', 'ns': ''})
     tr_reqs, tr_meta, rd_reqs, rd_meta, ev_reqs, ev_meta = [], [], [], [], [], []
-    for mode, e in exprs:
+    for idx, (mode, e) in enumerate(exprs):
         params = Q.random_params(rng)
         s = Q.src(e)
         ctx.count('%s:exprs' % mode)
@@ -82,7 +82,7 @@ def run(ctx):
         for prov, md in PROVIDERS:
             if md is not None and prov in asts:
                 ev_reqs.append({'op': 'evalsql', 'dialect': md, 'sql': asts[prov], 'params': params, 'rows': rows})
-                ev_meta.append((mode, e, s, prov, params))
+                ev_meta.append((mode, e, (idx, s), prov, params))
     if not ctx.driver.ok:
         ctx.note('driver unavailable: nothing compared'); return
     # (1) correspondence of the dialect translators
@@ -108,7 +108,7 @@ def run(ctx):
     by_expr = {}
     for (mode, e, s, prov, params), out in zip(ev_meta, ctx.driver('C02', ev_reqs)):
         by_expr.setdefault(s, {'mode': mode, 'e': e, 'params': params})[prov] = out.get('ok')
-    for s, d in by_expr.items():
+    for (idx, s), d in by_expr.items():
         e, params, mode = d['e'], d['params'], d['mode']
         expected = [i + 1 for i, r in enumerate(rows) if Q.as_k(Q.py_eval(e, r, params)) == Q.TT]
         sel = {}
@@ -118,7 +118,12 @@ def run(ctx):
             if 'err' in ks:
                 ctx.count('modelled-%s-rejects-the-statement:%s' % (prov, mode))
                 if frag_flag.get((s, prov)):
-                    ctx.divergence('the modelled %s backend rejects a statement of the theorem fragment' % prov, {'expr': s}, model=ks, impl=None)
+                    # inside the fragment the theorem says no backend type error can occur: a concrete query on which one dialect
+                    # answers and another (modelled) rejects the statement
+                    bad = ks.index('err')
+                    ctx.violation('the modelled %s backend rejects the statement the real %s translator emits, other dialects answer' % (prov, prov),
+                                  {'query': 'select(e for e in E if %s)' % s, 'dialect': prov, 'row': rows[bad]},
+                                  observed='type error on ' + prov, expected={'python': expected}, key='dialect-rejects:%s:%s' % (prov, json.dumps(Q.to_json(Q.canon_atoms(e)))))
                 continue
             sel[prov] = [i + 1 for i, k in enumerate(ks) if k == Q.TT]
         ctx.count('dialect-agreement-checked:' + mode)
